@@ -99,12 +99,12 @@ func runOwnQ(r *lib.Rng) {
 	c.Auth.NTSEnabled = true
 	ownQFetcher(&c.Auth.NTSKEFetcher)
 	measured := 0
-	for try := 0; try < 3 && measured == 0; try++ {
+	for try := 0; try < 2 && measured == 0; try++ {
 		la := udp.UDPAddr{IA: quicIA, Host: &net.UDPAddr{IP: addrB.To4()}}
 		ra := udp.UDPAddr{IA: quicIA, Host: &net.UDPAddr{IP: addrB.To4(), Port: 9}}
 		ps := []snet.Path{spath.Path{Src: quicIA, Dst: quicIA, DataplanePath: spath.Empty{},
 			NextHop: &net.UDPAddr{IP: addrB.To4(), Port: 9}}}
-		ctx, cancel := context.WithTimeout(context.Background(), 10*time.Second)
+		ctx, cancel := context.WithTimeout(context.Background(), 6*time.Second)
 		_, off, err := client.MeasureClockOffsetSCION(ctx, log, []*client.SCIONClient{c}, la, ra, ps)
 		cancel()
 		if err == nil && off > -time.Second && off < time.Second {
